@@ -1,11 +1,13 @@
 import Tahoe.Base.DrvUtil
 import Tahoe.Storage.Expire
+import Tahoe.Storage.GcCycle
 /-! Driver for C26: one bucket per line.
     `gc <enabled 0|1> <mode a:-|a:<override>|c:<cutoff>> <types im-bits e.g. 10> <now> <share>…`
     share = `i:<leases>` or `m:<leases>`, leases = `cancel@expiry,…` or `-`.
     Output: per processed share `raised/present/remaining/wks/numleases` joined by `;`, then
     ` | ` the 24 space-recovered count increments, then ` | raised=<0|1>`. -/
 open Tahoe.Drv Tahoe.Storage.Expire
+open Tahoe.Storage.Crawler Tahoe.Storage.GcCycle
 
 def parseLease (t : String) : Option Lease :=
   match t.splitOn "@" with
@@ -74,6 +76,97 @@ def handleCfg : List String → String
     | none => "bad-op"
   | _ => "bad-op"
 
+/-! `gcrun <enabled> <mode> <types> <np> <world> <gevent>…` - the crawler driving the expirer over a schedule.
+    world = `-` or `;`-separated buckets `<rank>=<share>|<share>`, share = `<shnum>.<i|m>.<leases>`,
+    leases = `c@e_c@e` or `-`;  gevent = `<now>~<event>` with the C27 event syntax (`s/<oracle>/<listing>`,
+    `k<K>/<oracle>/<listing>`, `r`).  Output per event `<log>/<cur>/<lcf>/<next>/<lcb>#<world>` joined by ` || `. -/
+
+def gcOracle (t : String) : Option (List Bool) := do
+  let idx ← parseNatList t
+  let n := idx.foldl (fun m x => max m (x + 1)) 0
+  pure ((List.range n).map (fun i => idx.contains i))
+
+def gcListing (t : String) : Option (Nat → List Nat) :=
+  if t == "-" then some (fun _ => []) else do
+    let pairs ← (t.splitOn ",").mapM (fun e => match e.splitOn ":" with
+      | [p, bs] => do
+          let pi ← p.toNat?
+          let l ← (if bs == "" then some [] else (bs.splitOn ".").mapM String.toNat?)
+          pure (pi, l)
+      | _ => none)
+    pure (fun i => match pairs.find? (fun q => q.1 == i) with | some q => q.2 | none => [])
+
+def gcEvent (t : String) : Option Event :=
+  match t.splitOn "/" with
+  | ["r"] => some .restart
+  | ["s", o, l] => do pure (.slice (← gcListing l) (← gcOracle o))
+  | [k, o, l] =>
+    if k.startsWith "k" then do
+      pure (.killed (← gcListing l) (← gcOracle o) (← (k.drop 1).toString.toNat?))
+    else none
+  | _ => none
+
+def gcGEvent (t : String) : Option GEvent :=
+  match t.splitOn "~" with
+  | [n, e] => do pure { ev := (← gcEvent e), now := (← n.toInt?) }
+  | _ => none
+
+def gcLeases (t : String) : Option (List Lease) :=
+  if t == "-" then some [] else (t.splitOn "_").mapM parseLease
+
+def gcShare (t : String) : Option (Nat × ShareType × List Lease) :=
+  match t.splitOn "." with
+  | [n, "i", ls] => do pure ((← n.toNat?), .immutable, (← gcLeases ls))
+  | [n, "m", ls] => do pure ((← n.toNat?), .mutable, (← gcLeases ls))
+  | _ => none
+
+def gcWorld (t : String) : Option (List (Nat × Bucket)) :=
+  if t == "-" then some [] else
+  (t.splitOn ";").mapM (fun e => match e.splitOn "=" with
+    | [r, shs] => do
+        let bk ← (if shs == "" then some [] else (shs.splitOn "|").mapM gcShare)
+        pure ((← r.toNat?), bk)
+    | _ => none)
+
+def showGcShare (s : Nat × ShareType × List Lease) : String :=
+  let ls := if s.2.2.isEmpty then "-" else "_".intercalate (s.2.2.map (fun l => s!"{l.cancel}@{l.expiry}"))
+  s!"{s.1}.{match s.2.1 with | .immutable => "i" | .mutable => "m"}.{ls}"
+
+def showGcWorld (keys : List Nat) (w : World) : String :=
+  if keys.isEmpty then "-" else
+  ";".intercalate (keys.map (fun k => s!"{k}=" ++ "|".intercalate ((w k).map showGcShare)))
+
+def showGcLog (l : List Entry) : String :=
+  if l.isEmpty then "-" else ",".intercalate (l.map (fun e => s!"{e.cycle}.{e.pfx}.{e.bucket}"))
+
+def showGcOpt : Option Nat → String
+  | none => "N"
+  | some n => toString n
+
+def gcShow (cfg : Config) (np : Nat) (keys : List Nat) : St → World → List GEvent → List String → List String
+  | _, _, [], acc => acc.reverse
+  | s, w, g :: gs, acc =>
+    let r := gcRun cfg np s w [g]
+    let p := r.1.p
+    gcShow cfg np keys r.1 r.2.1 gs
+      (s!"{showGcLog r.2.2}/{showGcOpt p.cur}/{showGcOpt p.lcf}/{p.next}/{showGcOpt p.lcb}#{showGcWorld keys r.2.1}" :: acc)
+
+def handleGc : List String → String
+  | en :: mode :: types :: np :: world :: evs =>
+    match (do
+      let e ← (match en.toList with | [c] => parseBit c | _ => none)
+      let m ← parseMode mode
+      let (ti, tm) ← (match types.toList with | [a, b] => do pure ((← parseBit a), (← parseBit b)) | _ => none)
+      let n ← np.toNat?
+      let wl ← gcWorld world
+      let gs ← evs.mapM gcGEvent
+      let cfg : Config := { enabled := e, mode := m, expImmutable := ti, expMutable := tm }
+      let w : World := fun b => match wl.find? (fun q => q.1 == b) with | some q => q.2 | none => []
+      pure (" || ".intercalate (gcShow cfg n (wl.map (·.1)) init w gs []))) with
+    | some out => out
+    | none => "bad-op"
+  | _ => "bad-op"
+
 def handle : List String → String
   | "gc" :: en :: mode :: types :: now :: shares =>
     match (do
@@ -89,6 +182,7 @@ def handle : List String → String
     | some out => out
     | none => "bad-op"
   | "cfg" :: rest => handleCfg rest
+  | "gcrun" :: rest => handleGc rest
   | _ => "bad-op"
 
 def main : IO Unit := mainLoop handle
